@@ -108,6 +108,10 @@ def zreal(x):
         if math.isnan(x) or math.isinf(x):
             raise SymbolicLeak("nan/inf in symbolic arithmetic")
         fr = fractions.Fraction(x)
+        # floats stand for the reals they approximate: 0.1 is 1/10, not 3602879701896397/2**55
+        nice = fr.limit_denominator(10**9)
+        if abs(nice - fr) <= abs(fr) * 4e-16:
+            fr = nice
         return z3.RealVal(f"{fr.numerator}/{fr.denominator}")
     if isinstance(x, fractions.Fraction):
         return z3.RealVal(f"{x.numerator}/{x.denominator}")
